@@ -36,9 +36,19 @@ func main() {
 	Main("C18", runC18)
 }
 
+// watchdog budgets: generous, they cost nothing when the answer arrives.  VERIF_C18_WATCHDOG_SCALE
+// (a divisor) exists only so that the mutation self-test of the watchdogs does not take an hour.
+var wdCase, wdChild, wdLong = 90 * time.Second, 120 * time.Second, 600 * time.Second
+
+func init() {
+	if n, err := strconv.Atoi(os.Getenv("VERIF_C18_WATCHDOG_SCALE")); err == nil && n > 1 {
+		wdCase, wdChild, wdLong = wdCase/time.Duration(n), wdChild/time.Duration(n), wdLong/time.Duration(n)
+	}
+}
+
 // ---------------------------------------------------------------- ops
 type op struct {
-	kind           byte // s d g a f r x  e E (flush while the provider / the file system fails)  k (flush that dies, then restart)
+	kind           byte // s d g a f r x  e E R (flush while the provider fails / the table file cannot be opened / cannot be renamed into place)  k (flush that dies, then restart)
 	key            string
 	pw, push, pull string // users
 	admin, upd     bool
@@ -109,7 +119,7 @@ func parseLine(l string) (users bool, ops []op, ok bool) {
 			ops = append(ops, op{kind: 'x', disk: p[1]})
 		case p[0] == "k" && len(p) == 3 && len(p[2]) == 1 && strings.Contains(partClasses, p[2]):
 			ops = append(ops, op{kind: 'k', hook: p[1], part: p[2]})
-		case len(p) == 1 && len(p[0]) == 1 && strings.Contains("afreE", p[0]):
+		case len(p) == 1 && len(p[0]) == 1 && strings.Contains("afreER", p[0]):
 			ops = append(ops, op{kind: p[0][0]})
 		default:
 			return false, nil, false
@@ -337,6 +347,23 @@ func (t *table) apply(o op) (res string) {
 			return r + "+file-changed"
 		}
 		return r
+	case 'R':
+		// the file system refuses late: the table file's name is taken by a directory, so the temporary
+		// file is written and synced but cannot be renamed into place (the last step of EncodeJSONFile fails)
+		before, had := readFile(t.file)
+		d := t.file + ".isdir"
+		retry("mkdir "+d, func() error { return os.MkdirAll(filepath.Join(d, "occupied"), 0755) })
+		if t.configure(d) != "ok" {
+			return "cfgerr"
+		}
+		r := t.flush()
+		t.configure(t.file)
+		os.RemoveAll(d)
+		os.Remove(d + ".tmp")
+		if after, has := readFile(t.file); has != had || !bytes.Equal(before, after) {
+			return r + "+file-changed"
+		}
+		return r
 	case 'r':
 		return t.restart()
 	case 'x':
@@ -447,7 +474,7 @@ func (t *table) crash(o op) string {
 	old, hadOld := readFile(t.file)
 	before := snapshotSiblings(t.file)
 	st := runChild(childJob{Kind: "crash", Users: t.users, File: t.file, Snap: Hx(t.snap), HadSnap: t.hadSnap,
-		Line: line(t.users, t.life), Hook: o.hook, Part: o.part}, 120*time.Second, func() { restoreSiblings(t.file, before) })
+		Line: line(t.users, t.life), Hook: o.hook, Part: o.part}, wdChild, func() { restoreSiblings(t.file, before) })
 	// what the flush would have written: the same flush, completed, to a file of its own
 	exp := t.file + ".expected"
 	removeAll(exp)
@@ -583,7 +610,7 @@ func genOps(c *Ctx, users bool, n int, withReload bool) []op {
 			case r.Chance(22):
 				if r.Chance(25) {
 					// a flush that fails first (provider down / file system refuses), then one that works
-					ops = append(ops, op{kind: "eE"[r.Intn(2)]})
+					ops = append(ops, op{kind: "eER"[r.Intn(3)]})
 					if r.Chance(30) {
 						ops = append(ops, op{kind: 'a'})
 					}
@@ -598,7 +625,7 @@ func genOps(c *Ctx, users bool, n int, withReload bool) []op {
 			case r.Chance(6):
 				ops = append(ops, op{kind: 'r'}, op{kind: 'a'}) // restart without flush: back to the persisted table
 			case r.Chance(4):
-				ops = append(ops, op{kind: "eE"[r.Intn(2)]}, op{kind: 'r'}, op{kind: 'a'}) // a failed flush persists nothing
+				ops = append(ops, op{kind: "eER"[r.Intn(3)]}, op{kind: 'r'}, op{kind: 'a'}) // a failed flush persists nothing
 			}
 		}
 	}
@@ -679,6 +706,44 @@ func genCrashHistory(c *Ctx, users bool, i int) []op {
 	return ops
 }
 
+// the stated quantifier, literally: every history up to a bounded length over a small set of names /
+// patterns (thorough tier), and every crash point after every such history of length ≤ 2
+func enumerate(users bool, emit func([]op)) {
+	var alpha []op
+	if users {
+		alpha = []op{{kind: 's', key: "bob", pw: "pw1", pull: "/a/+", upd: true}, {kind: 's', key: "BOB", pw: "pw2", admin: true, upd: false},
+			{kind: 's', key: "alice", pw: "x", upd: true}, {kind: 'd', key: "Bob"}, {kind: 'd', key: "admin"}, {kind: 'f'}, {kind: 'r'}, {kind: 'e'}}
+	} else {
+		alpha = []op{{kind: 's', key: "/a/", url: "rtsp://h/x"}, {kind: 's', key: " /A//", url: "rtsp://h/y/", ka: true},
+			{kind: 's', key: "/a/b", url: "rtsp://h/z"}, {kind: 'd', key: "/A/"}, {kind: 'd', key: "/a/b/."}, {kind: 'f'}, {kind: 'r'}, {kind: 'E'}}
+	}
+	tail := []op{{kind: 'a'}, {kind: 'f'}, {kind: 'r'}, {kind: 'a'}}
+	var rec func(h []op, depth int)
+	rec = func(h []op, depth int) {
+		if len(h) > 0 {
+			emit(append(append([]op{}, h...), tail...))
+			if len(h) <= 2 {
+				for _, hk := range hooks {
+					parts := []string{"-"}
+					if hk == "before-write" {
+						parts = []string{"0", "1", "h", "m", "a"}
+					}
+					for _, pt := range parts {
+						emit(append(append(append([]op{}, h...), op{kind: 'k', hook: hk, part: pt}, op{kind: 'a'}), append(append([]op{}, h...), tail...)...))
+					}
+				}
+			}
+		}
+		if depth == 0 {
+			return
+		}
+		for _, o := range alpha {
+			rec(append(append([]op{}, h...), o), depth-1)
+		}
+	}
+	rec(nil, 4)
+}
+
 // ---------------------------------------------------------------- classification
 func classify(users bool, ops []op, i int) string {
 	k := kindName(users)
@@ -692,7 +757,7 @@ func classify(users bool, ops []op, i int) string {
 		}
 	}
 	name := map[byte]string{'s': "save", 'd': "del", 'g': "get", 'a': "all", 'f': "flush", 'r': "restart", 'x': "setdisk",
-		'e': "flush-provider-down", 'E': "flush-fs-refuses", 'k': "crash"}[ops[i].kind]
+		'e': "flush-provider-down", 'E': "flush-fs-refuses", 'R': "flush-fs-refuses", 'k': "crash"}[ops[i].kind]
 	switch {
 	case crashed:
 		return k + "-" + name + "-after-crash"
@@ -798,7 +863,16 @@ func runC18(c *Ctx) {
 			users := i%2 == 0
 			cases = append(cases, tcase{users: users, ops: genOps(c, users, 1+c.Rng.Intn(9), true)})
 		}
-		ncr := c.Budget(130, 1500)
+		if c.Thorough() {
+			for _, users := range []bool{true, false} {
+				u := users
+				enumerate(u, func(ops []op) { cases = append(cases, tcase{users: u, ops: ops}) })
+			}
+			c.Note("every history of ≤ 4 operations over an alphabet of 8 (3 saves incl. an update in another spelling, 2 deletes, flush, restart, failing flush), " +
+				"for users and for routes, each followed by all/flush/restart/all: enumerated completely; after every such history of ≤ 2 operations, " +
+				"a flush that dies at each of the 5 crash points (each length class of the write in progress), then the same edits again")
+		}
+		ncr := c.Budget(130, 1000)
 		for i := 0; i < ncr; i++ {
 			users := i%2 == 0
 			cases = append(cases, tcase{users: users, ops: genCrashHistory(c, users, i)})
@@ -824,15 +898,22 @@ func runC18(c *Ctx) {
 		}
 		done := make(chan tresult, 1)
 		go func(i int, k tcase) { done <- runCase(dir, i, k) }(i, k)
+		// a dying flush has a watchdog of its own (wdChild, then wdLong): leave it the time to bark first
+		extra := time.Duration(0)
+		for _, o := range k.ops {
+			if o.kind == 'k' {
+				extra += wdChild + wdLong + wdCase/3
+			}
+		}
 		select {
 		case results[i] = <-done:
-		case <-time.After(90 * time.Second):
+		case <-time.After(wdCase + extra):
 			// no answer: slow machine or a call that never returns?  The history is run again, alone, in a
 			// process of its own with a long budget; whichever answers first decides.
 			l := line(k.users, k.ops)
 			confirm := make(chan string, 1)
 			go func() {
-				confirm <- runChild(childJob{Kind: "hist", Users: k.users, File: filepath.Join(dir, fmt.Sprintf("alone-%d", i), "t.json"), Line: l}, 600*time.Second, nil)
+				confirm <- runChild(childJob{Kind: "hist", Users: k.users, File: filepath.Join(dir, fmt.Sprintf("alone-%d", i), "t.json"), Line: l}, wdLong+extra, nil)
 			}()
 			st := ""
 			select {
@@ -842,14 +923,14 @@ func runC18(c *Ctx) {
 					// the history does return when run alone: keep waiting for this process's run
 					select {
 					case results[i] = <-done:
-					case <-time.After(600 * time.Second):
+					case <-time.After(wdLong + extra):
 						st = "hung"
 					}
 				}
 			}
 			if st == "hung" {
 				c.Find(Finding{Kind: "oracle", Class: kindName(k.users) + "-history-never-returns", Case: l, Impl: "no answer", Spec: "every operation returns",
-					Detail: "the history did not return within 90 s in this process nor within 600 s alone in a process of its own"})
+					Detail: fmt.Sprintf("the history did not return within %v in this process nor within %v alone in a process of its own", wdCase, wdLong)})
 				poisoned[k.users] = l
 				results[i] = tresult{env: "never returned"}
 			} else {
@@ -881,7 +962,7 @@ func runC18(c *Ctx) {
 				writeFile(file, rc.old)
 			}
 			before := snapshotSiblings(file)
-			st := runChild(childJob{Kind: "raw", File: file, Hook: rc.hook, Partial: rc.partial, Raw: Hx(rc.new)}, 120*time.Second,
+			st := runChild(childJob{Kind: "raw", File: file, Hook: rc.hook, Partial: rc.partial, Raw: Hx(rc.new)}, wdChild,
 				func() { restoreSiblings(file, before) })
 			switch st {
 			case "K":
@@ -945,8 +1026,8 @@ func runC18(c *Ctx) {
 				} else {
 					c.Count("flush-" + impl[j])
 				}
-			case 'e', 'E':
-				c.Count("failing-flush-" + impl[j])
+			case 'e', 'E', 'R':
+				c.Count("failing-flush-" + string(o.kind) + "-" + impl[j])
 			case 'x':
 				if strings.HasPrefix(o.disk, "T:") {
 					c.Count("file-hand-written")
@@ -995,7 +1076,7 @@ func runC18(c *Ctx) {
 					switch {
 					case out == "hung":
 						c.Find(Finding{Kind: "oracle", Class: "flush-never-returns", Case: caseLine, Impl: impl[j], Spec: spec[j],
-							Detail: fmt.Sprintf("op #%d %s: the flushing process neither reached the crash point nor returned within 120 s and, run again, within 600 s", j, o.token(k.users))})
+							Detail: fmt.Sprintf("op #%d %s: the flushing process neither reached the crash point nor returned within %v and, run again, within %v", j, o.token(k.users), wdChild, wdLong)})
 					case out == "old" || out == "new" || out == "same" || out == "skip":
 						if rs != "ok" {
 							c.Find(Finding{Kind: "oracle", Class: "restart-after-crash-" + rs, Case: caseLine, Impl: impl[j], Model: model[j], Spec: spec[j],
